@@ -37,6 +37,11 @@ fn model_xml(t: &J, values: &[Value], direct: bool) -> (String, Vec<bool>) {
   for (k, v) in values.iter().enumerate() {
     if let Some(text) = literal(v) {
       s.push_str(&format!("<decision name=\"out{k}\" id=\"d_out{k}\"><variable name=\"out{k}\" typeRef=\"{ty}\"/><literalExpression><text>{text}</text></literalExpression></decision>", k = k, ty = type_ref, text = esc(&text)));
+      // the same declared type on a knowledge model: evaluated by name, through a boxed invocation and through a FEEL call
+      // from decisions whose own variables are untyped
+      s.push_str(&format!("<businessKnowledgeModel name=\"bk{k}\" id=\"b_bk{k}\"><variable name=\"bk{k}\" typeRef=\"{ty}\"/><encapsulatedLogic><literalExpression><text>{text}</text></literalExpression></encapsulatedLogic></businessKnowledgeModel>", k = k, ty = type_ref, text = esc(&text)));
+      s.push_str(&format!("<decision name=\"inv{k}\" id=\"d_inv{k}\"><variable name=\"inv{k}\"/><knowledgeRequirement><requiredKnowledge href=\"#b_bk{k}\"/></knowledgeRequirement><invocation><literalExpression><text>bk{k}</text></literalExpression></invocation></decision>", k = k));
+      s.push_str(&format!("<decision name=\"call{k}\" id=\"d_call{k}\"><variable name=\"call{k}\"/><knowledgeRequirement><requiredKnowledge href=\"#b_bk{k}\"/></knowledgeRequirement><literalExpression><text>bk{k}()</text></literalExpression></decision>", k = k));
       has.push(true);
     } else {
       has.push(false);
@@ -57,21 +62,27 @@ pub fn run_case(case: &J, direct: bool) -> J {
     let me = dmntk_model_evaluator::ModelEvaluator::new(&defs).map_err(|e| format!("build: {}", e))?;
     let mut inp = vec![];
     let mut out = vec![];
+    let mut bkm = vec![];
     for (k, v) in values.iter().enumerate() {
       let mut ctx = FeelContext::default();
       ctx.set_entry(&Name::from("x"), v.clone());
       inp.push(enc_value(&me.evaluate_invocable("echo", &ctx)));
       out.push(if has[k] { enc_value(&me.evaluate_invocable(&format!("out{}", k), &FeelContext::default())) } else { json!({"k": "skipped"}) });
+      bkm.push(if has[k] {
+        json!([enc_value(&me.evaluate_invocable(&format!("bk{}", k), &FeelContext::default())), enc_value(&me.evaluate_invocable(&format!("inv{}", k), &FeelContext::default())), enc_value(&me.evaluate_invocable(&format!("call{}", k), &FeelContext::default()))])
+      } else {
+        json!([])
+      });
     }
-    Ok::<(Vec<J>, Vec<J>), String>((inp, out))
+    Ok::<(Vec<J>, Vec<J>, Vec<J>), String>((inp, out, bkm))
   }));
   crate::util::QUIET.with(|q| q.set(false));
   // the values as the harness encodes them (what "unchanged" is compared with)
   let venc: Vec<J> = values.iter().map(enc_value).collect();
   match r {
-    Ok(Ok((inp, out))) => json!({"ty": t, "vals": venc, "direct": direct, "built": "ok", "inp": inp, "out": out}),
-    Ok(Err(e)) => json!({"ty": t, "vals": venc, "direct": direct, "built": e, "inp": [], "out": []}),
-    Err(_) => json!({"ty": t, "vals": venc, "direct": direct, "built": "panic", "inp": [], "out": []}),
+    Ok(Ok((inp, out, bkm))) => json!({"ty": t, "vals": venc, "direct": direct, "built": "ok", "inp": inp, "out": out, "bkm": bkm}),
+    Ok(Err(e)) => json!({"ty": t, "vals": venc, "direct": direct, "built": e, "inp": [], "out": [], "bkm": []}),
+    Err(_) => json!({"ty": t, "vals": venc, "direct": direct, "built": "panic", "inp": [], "out": [], "bkm": []}),
   }
 }
 
